@@ -130,6 +130,7 @@ type explorer struct {
 	obsKind  map[string]string
 	choices  map[string]string
 	spec     int // >0 while a pure region is evaluated speculatively
+	allowOpaqueCut bool
 	condSet  map[string]bool
 	prefixKinds []byte
 	pathID   int64
@@ -554,6 +555,37 @@ func (ex *explorer) concretize(fr *frame, s *symv, signed bool, limit int) int64
 	return dec
 }
 
+// concretizeRange forks over the feasible values of s within [lo, hi] (already asserted to lie
+// there), testing each candidate with its own small query.
+func (ex *explorer) concretizeRange(fr *frame, s *symv, lo, hi int64) int64 {
+	var dec int64
+	if ex.replaying() {
+		dec = ex.prefix[ex.pos]
+	} else {
+		var vals []int64
+		for v := lo; v <= hi; v++ {
+			r, _ := ex.check("(= "+s.term+" "+bvLit(uint64(v), s.bits)+")", false)
+			if r == "sat" {
+				vals = append(vals, v)
+			} else if r != "unsat" {
+				panic(engineFault{"concretize: solver undecided"})
+			}
+		}
+		if len(vals) == 0 {
+			panic(pathAbort{"infeasible path"})
+		}
+		for _, v := range vals[1:] {
+			alt := append(append(make([]int64, 0, len(ex.taken)+1), ex.taken...), v)
+			ex.pending = append(ex.pending, alt)
+		}
+		dec = vals[0]
+	}
+	ex.pos++
+	ex.taken = append(ex.taken, dec)
+	ex.addCond("(= " + s.term + " " + bvLit(uint64(dec), s.bits) + ")")
+	return dec
+}
+
 // tryConcretizeSmall: if s has at most 64 feasible values on this path, all within ±2^16, fork over them.
 func (ex *explorer) tryConcretizeSmall(fr *frame, s *symv, signed bool) (v int64, ok bool) {
 	if ex.spec > 0 {
@@ -786,6 +818,7 @@ func (i *interpreter) runPath(harness *ssa.Function, prefix []int64) (pending []
 	ex.decls, ex.inputs, ex.nsym, ex.ndef = nil, nil, nil, 0
 	ex.steps, ex.events, ex.obsTerms, ex.pending = 0, nil, nil, nil
 	ex.spec = 0
+	ex.allowOpaqueCut = false
 	ex.condSet = map[string]bool{}
 	ex.pathID = atomic.AddInt64(&pathSeq, 1)
 	ex.replacements = map[string]value{}
@@ -819,9 +852,17 @@ func (i *interpreter) runPath(harness *ssa.Function, prefix []int64) (pending []
 				_, m := ex.check("", true)
 				ex.recordViolation(nil, "panic", "panic/"+p.what+"@"+p.pos, p.pos, p.what, m)
 			case engineFault:
+				if ex.allowOpaqueCut && strings.Contains(p.msg, "formatted text of a symbolic number") {
+					end = "abort: cut (text of a symbolic number inspected)"
+					break
+				}
 				end = "unsupported"
 				unsupported = p.msg
 			default:
+				if ex.allowOpaqueCut && strings.Contains(fmt.Sprint(r), "poisonByte") {
+					end = "abort: cut (text of a symbolic number inspected)"
+					break
+				}
 				end = "unsupported"
 				unsupported = fmt.Sprintf("engine panic: %v", r)
 				if ex.cfg.Debug {
@@ -843,7 +884,13 @@ func (i *interpreter) runPath(harness *ssa.Function, prefix []int64) (pending []
 	}
 	res.Ends[key]++
 	if unsupported != "" {
-		res.Unsupported[truncate(unsupported, 300)]++
+		ctx := ""
+		for _, e := range ex.events {
+			if strings.HasPrefix(e, "O:fn=hex:") {
+				ctx = " [fn=" + hexEventText(e[len("O:fn=hex:"):]) + "]"
+			}
+		}
+		res.Unsupported[truncate(unsupported, 300)+ctx]++
 	}
 	res.Steps += int64(ex.steps)
 	if len(ex.taken) > res.MaxDepth {
@@ -935,4 +982,15 @@ func fpModelBits(v string) string {
 		return "fNaN"
 	}
 	return "f?" + v
+}
+
+func hexEventText(h string) string {
+	var b []byte
+	for _, p := range strings.Split(h, ",") {
+		var v int
+		if _, err := fmt.Sscanf(p, "%02x", &v); err == nil {
+			b = append(b, byte(v))
+		}
+	}
+	return string(b)
 }
